@@ -270,3 +270,21 @@ Lemma tie_sorter_temp_file_wrapper : TIE_sorter_temp_file_wrapper =
   [(0, "structmtbl_reader*r=_mtbl_sorter_write_chunk(batch)");
    (0, "returnr")].
 Proof. reflexivity. Qed.
+
+(* mtbl/threadpool.c: threadpool_init *)
+Lemma tie_tp_threadpool_init : TIE_tp_threadpool_init =
+  [(0, "structthreadpool*pool=calloc(1,sizeof(*pool))");
+   (0, "pthread_mutex_init(&pool->m,NULL)");
+   (0, "pthread_cond_init(&pool->c,NULL)");
+   (0, "pool->max=max_threads");
+   (0, "returnpool")].
+Proof. reflexivity. Qed.
+
+(* mtbl/threadpool.c: resultq_init *)
+Lemma tie_tp_resultq_init : TIE_tp_resultq_init =
+  [(0, "structresultq*rq=calloc(1,sizeof(*rq))");
+   (0, "pthread_mutex_init(&rq->m,NULL)");
+   (0, "pthread_cond_init(&rq->c,NULL)");
+   (0, "rq->ptail=&rq->head");
+   (0, "returnrq")].
+Proof. reflexivity. Qed.
